@@ -35,7 +35,7 @@ TRUSTED = [
     "C06 threads(): os.listdir of the task directory is scripted (shuffled order); a vanished thread = listed directory without stat file (ENOENT only, not ESRCH); 'process gone at the end' = os.stat(/proc/<pid>) and os.path.exists(/proc/<pid>/stat) fail while the fake procfs still serves the file (no zombie records in that sub-family)",
 ]
 MANIFEST = {
-    "level_text": "Machine-checked Lean 4 proofs that the model of _parse_stat_file/name/ppid/status/cpu_times/create_time/cpu_num/terminal and of threads() inverts the kernel's stat renderer for EVERY comm byte string (any bytes, any number of parentheses, blanks, newlines), every state letter, unbounded counters, old-kernel records without the trailing fields (C06_stat_roundtrip and its per-method corollaries, C06_threads_exact, C06_old_kernel_iowait_zero), that PROC_STATUSES is the documented letter table (C06_status_letter_map, decide over the generated dict), and that uids/gids/num_threads/num_ctx_switches extract the real lines of a status file rendered with the kernel's Name: escaping for every name (C06_status_extract, C06_ctx_switches_extract), with groups that accept exactly non-empty ASCII-digit runs so that no byte string can make them raise ValueError (C06_status_tokens_digits_only, C06_status_match_shape). Round 2 adds the code around the parsers: terminal() through the real get_terminal_map over an abstract /dev in any listing order with vanishing entries and aliases (C06_terminal_map_exact; full statement proved for a map that tests S_ISCHR, refuted for the current code by a regular file with st_rdev 0 = known finding with proposed fix), the @memoize on it (C06_terminal_memoized, C06_terminal_first_scan_wins; refuted 'exact for the current /dev' = known finding), create_time() end to end from the text of /proc/stat and /proc/<pid>/stat with the BOOT_TIME pin (C06_boot_time_exact, C06_create_time_end_to_end, C06_create_time_uses_pinned_boot_time), and the VALUE and ORDER of threads() for every os.listdir order and every set of threads that vanish mid-scan (C06_threads_order: string order of the names; C06_threads_value, C06_threads_gone, C06_threads_old_kernel). The theorems hold for the configuration cfg_good, a proof obligation fed by translator facts (indices, find/rfind, regex keys and anchoring, binary open mode; xcfg_good: glob patterns, FileNotFoundError guard, memoize, btime key/index, cached boot time, sort, vanish handling); for the pre-fix configurations the negations are proved with concrete witnesses (thread named `a) b`; process named `Uid:\\t0\\t0\\t0`; text-mode reading with `\\r`). Tie: translator + differential run of the real Process methods over a fake procfs and a redirected /dev, called plainly, inside oneshot(), through as_dict(), on the objects of process_iter() and through process_iter(attrs).info.",
+    "level_text": "Machine-checked Lean 4 proofs that the model of _parse_stat_file/name/ppid/status/cpu_times/create_time/cpu_num/terminal and of threads() inverts the kernel's stat renderer for EVERY comm byte string (any bytes, any number of parentheses, blanks, newlines), every state letter, unbounded counters, old-kernel records without the trailing fields (C06_stat_roundtrip and its per-method corollaries, C06_threads_exact, C06_old_kernel_iowait_zero), that PROC_STATUSES is the documented letter table (C06_status_letter_map, decide over the generated dict), and that uids/gids/num_threads/num_ctx_switches extract the real lines of a status file rendered with the kernel's Name: escaping for every name (C06_status_extract, C06_ctx_switches_extract), with groups that accept exactly non-empty ASCII-digit runs so that no byte string can make them raise ValueError (C06_status_tokens_digits_only, C06_status_match_shape). Round 2 adds the code around the parsers: terminal() through the real get_terminal_map over an abstract /dev in any listing order with vanishing entries and aliases (C06_terminal_map_exact_code: TerminalMapExact_Full for the code as it is, non-device files included, since get_terminal_map tests S_ISCHR - fact tmapChecksChr pinned by xcfg_good / cfg_tmap_checks_chr; refuted for the configuration without the test by a regular file with st_rdev 0, C06_terminal_nondevice_counterexample), histories of calls in one interpreter: the memoised map answers, i.e. every call is exact for the /dev of the FIRST terminal() call (C06_terminal_memoized, C06_terminal_first_scan_wins) and for the current /dev whenever /dev did not change (C06_terminal_unchanged_dev_exact); C06_terminal_stale_counterexample only characterises the memoisation (a pty created later is not seen; by design, beyond the property's quantifier), create_time() end to end from the text of /proc/stat and /proc/<pid>/stat with the BOOT_TIME pin (C06_boot_time_exact, C06_create_time_end_to_end, C06_create_time_uses_pinned_boot_time), and the VALUE and ORDER of threads() for every os.listdir order and every set of threads that vanish mid-scan (C06_threads_order: string order of the names; C06_threads_value, C06_threads_gone, C06_threads_old_kernel). The theorems hold for the configuration cfg_good, a proof obligation fed by translator facts (indices, find/rfind, regex keys and anchoring, binary open mode; xcfg_good: glob patterns, FileNotFoundError guard, memoize, btime key/index, cached boot time, sort, vanish handling); for the pre-fix configurations the negations are proved with concrete witnesses (thread named `a) b`; process named `Uid:\\t0\\t0\\t0`; text-mode reading with `\\r`). Tie: translator + differential run of the real Process methods over a fake procfs and a redirected /dev, called plainly, inside oneshot(), through as_dict(), on the objects of process_iter() and through process_iter(attrs).info.",
     "level_note": "Trusted: Lean kernel + {propext, Classical.choice, Quot.sound}; translator; correspondence harness; kernel renderers (validated against the live kernel each run); CPython int/float/split/re modelled; floats = exact rationals within 1e-12 relative.",
     "technique": "Lean 4 round-trip proofs parse(render r) = view r over all byte strings + translator-fed proof obligation + differential correspondence through a fake procfs",
     "design_ref": "DESIGN.md §5 C06",
@@ -265,6 +265,8 @@ def add_world(case, rng):
         if rng.random() < 0.25 and rec and rec["state"] != 90:
             case["alive"] = False
     case["threads"] = threads
+    # process_iter() objects / .info are observed on every second case (quick-tier budget)
+    case["iter_modes"] = rng.random() < 0.5
     listing = [tid_of(t) for t in threads]
     rng.shuffle(listing)
     case["listing"] = listing
@@ -430,6 +432,20 @@ def corpus_cases():
     c["tck"] = 100
     c["threads"] = [{"rec": t}]
     separate_main_thread(c, rng)
+    out.append(c)
+    # regression (fixed 9df9f82): a regular file /dev/tty.log (st_rdev 0) must not become the terminal of a daemon (tty_nr 0)
+    c = gen_case(rng, "mixed")
+    c["family"] = "corpus"
+    c["stat"]["rec"]["f"][3] = 0
+    c["dev"] = [[b"/dev/tty1".hex(), "chr", 1025], [b"/dev/tty.log".hex(), "other", 0]]
+    c.pop("dev2", None)
+    out.append(c)
+    # history: /dev/pts/0 appears after the first terminal() call: the memoised map (first scan) answers
+    c = gen_case(rng, "mixed")
+    c["family"] = "corpus"
+    c["stat"]["rec"]["f"][3] = 34816
+    c["dev"] = [[b"/dev/tty1".hex(), "chr", 1025]]
+    c["dev2"] = [[b"/dev/tty1".hex(), "chr", 1025], [b"/dev/pts/0".hex(), "chr", 34816]]
     out.append(c)
     return out
 
@@ -628,7 +644,7 @@ class Impl:
         plain_ok = well_formed and all(o["kind"] == "ok" for k, o in out.items() if ":" not in k)
         # (4) the objects process_iter() hands out, and process_iter(attrs=[...]).info (fresh, then from the
         #     warm _pmap cache): the fake procfs lists exactly this PID
-        if plain_ok:
+        if plain_ok and case.get("iter_modes", True):
             ps.process_iter.cache_clear()
             it = fakeproc.outcome(lambda: [q for q in ps.process_iter() if q.pid == pid])
             if it["kind"] == "ok" and len(it["value"]) == 1:
@@ -747,28 +763,6 @@ def line_of(case):
     return d
 
 
-FIND_NONDEV = "C06-terminal-nondevice"
-FIND_STALE = "C06-terminal-stale"
-
-
-def finding_of(case, key, ci, mo, sp):
-    """Known-finding regions (findings/C06.json). Only for rows where the implementation does what the MODEL says
-    and the model is what the proved counterexamples describe."""
-    m = key.split(":")[-1]
-    if BASE_METHOD.get(m, m) != "terminal" or mo is None or not agrees(m, ci, mo):
-        return None
-    rec = case["stat"].get("rec")
-    if not rec:
-        return None
-    tty = rec["f"][3]
-    devs = list(case.get("dev", [])) + (list(case.get("dev2", [])) if m == "terminal_stale" else [])
-    if any(k == "other" and r == tty for _, k, r in devs):
-        return FIND_NONDEV          # a non-device file whose st_rdev equals the tty number (0 = no terminal)
-    if m == "terminal_stale":
-        return FIND_STALE           # /dev changed after get_terminal_map() was memoised
-    return None
-
-
 def evaluate(impl, case, ans):
     """Run the implementation on the driver's files; return list of (method, impl, model, spec, kind)."""
     if "bad" in ans:
@@ -885,11 +879,6 @@ def record(res, case, rows, source):
         res.count("observed:" + (m.split(":")[0] if ":" in m else "plain"))
     for m, ci, mo, sp, kind in rows:
         if kind == "spec":
-            fid = finding_of(case, m, ci, mo, sp)
-            if fid:
-                res.known_seen[fid] = res.known_seen.get(fid, 0) + 1
-                res.count("known-finding:" + fid)
-                continue
             res.disagree("spec", {"case": case, "method": m, "source": source}, ci, mo, sp,
                          note="%s(): implementation differs from what the kernel record promises" % m)
             return True
@@ -998,16 +987,14 @@ def search(ctx, res, broken):
 # ------------------------------------------------------------------------------ shrink / replay
 
 
-def _violates(impl, drv, case, method=None, known=None):
-    """first spec-level disagreement of `case` (outside the known-finding regions; `known` = a finding id:
-    only inside that region)"""
+def _violates(impl, drv, case, method=None):
+    """first spec-level disagreement of `case`"""
     ans = drv.ask(line_of(case))
     if "bad" in ans:
         return None
     for m, ci, mo, sp, kind in evaluate(impl, case, ans):
         if kind == "spec" and (method is None or m == method):
-            if finding_of(case, m, ci, mo, sp) == known:
-                return (m, ci, mo, sp)
+            return (m, ci, mo, sp)
     return None
 
 
@@ -1104,7 +1091,7 @@ def check_finding(ctx, fnd):
     impl = Impl(ctx)
     drv = ctx.driver().start()
     try:
-        return "reproduces" if _violates(impl, drv, case, w.get("method"), known=fnd.get("id")) else "gone"
+        return "reproduces" if _violates(impl, drv, case, w.get("method")) else "gone"
     finally:
         drv.close()
         impl.close()
